@@ -1,5 +1,6 @@
 //! The oracle: an independent reference model of the 35 operators (three-valued) plus the ECMAScript coercions.
 pub mod coerce;
+pub mod cost;
 pub mod eval;
 
 pub use eval::{eval, Ctx, Res};
